@@ -251,6 +251,30 @@ inline Outcome runSparseLUCase(const KV& c)
                 M->row_nz_entry(i, k - rowStart[i]) = vals[k];
             }
     }
+    // mat_via: how the matrix object that is factorised came to hold the matrix ("rows stored in any order" is a statement
+    // about the content, not about the history of the container): 1 copy-assigned over a matrix with the same dimension and
+    // the same number of entries but the row lengths in reverse order, 2 copy-assigned over a matrix of another size,
+    // 3 move-assigned over the former; the source object is destroyed first.
+    const int matVia = (int)c.getI("mat_via", 0);
+    if (matVia != 0 && n >= 1) {
+        o.cls("matrix_via_" + std::to_string(matVia));
+        std::unique_ptr<SparseMatrixCSR<double>> T;
+        if (matVia == 2)
+            T = std::make_unique<SparseMatrixCSR<double>>(n + 2, n + 2, [](int) { return 1; });
+        else {
+            T = std::make_unique<SparseMatrixCSR<double>>(n, n, [&](int i) { return rowStart[n - i] - rowStart[n - 1 - i]; });
+            for (int i = 0; i < n; i++)
+                for (int k = 0; k < T->row_nz_size(i); k++) {
+                    T->row_nz_index(i, k) = k % n;
+                    T->row_nz_entry(i, k) = 1.0 + k;
+                }
+        }
+        if (matVia == 3)
+            *T = std::move(*M);
+        else
+            *T = *M;
+        M = std::move(T);
+    }
     // container observations
     if (M->rows() != n || M->columns() != n || M->non_zero_size() != (int)nnz) {
         o.fail("csr_shape", "CSR container reports wrong shape/nnz");
@@ -592,6 +616,7 @@ inline KV genSparseLUCase()
     c.putVD("vals", vals);
     c.putI("nrhs", rint(1, 4));
     c.putI("via", rweighted({5, 1, 1, 1}));
+    c.putI("mat_via", rweighted({6, 1, 1, 1}));
     c.putI("via_dn", rpick({-1, 0, 0, 2}));
     c.putI("rhs_kind", rint(0, 3));
     c.putU("rhs_seed", rseed());
